@@ -20,8 +20,8 @@ theorem C33_exclusive (c : DLCfg) (hc : c.Good) (s : St) (hr : Reachable (sys c)
   have hinv := Inv.reachable hc s hr
   obtain ⟨ti, hti, hpi⟩ := hi
   obtain ⟨tj, htj, hpj⟩ := hj
-  have n1 := hinv.heldName i ti hti hpi
-  have n2 := hinv.heldName j tj htj hpj
+  have n1 := hinv.heldName i ti hti (by simp [hpi, holding])
+  have n2 := hinv.heldName j tj htj (by simp [hpj, holding])
   have l1 := hinv.thrLock i ti hti (by simp [hpi, inLock])
   have l2 := hinv.thrLock j tj htj (by simp [hpj, inLock])
   rw [n1] at n2
@@ -35,7 +35,45 @@ theorem C33_holder_owns_path (c : DLCfg) (hc : c.Good) (s : St) (hr : Reachable 
     (i : Nat) (t : Thr) (ht : s.thr i = some t) (hp : t.pc = .held) :
     s.name = some t.fd ∧ s.lockedBy t.fd = some i := by
   have hinv := Inv.reachable hc s hr
-  exact ⟨hinv.heldName i t ht hp, hinv.thrLock i t ht (by simp [hp, inLock])⟩
+  exact ⟨hinv.heldName i t ht (by simp [hp, holding]), hinv.thrLock i t ht (by simp [hp, inLock])⟩
+
+/-- **No second holder while the first holder's Close is in progress.**  A contender *uses* the
+directory from the return of AcquireDirLock until — for a DB — every storage component has been
+closed (`Using`: holding, or inside DB.Close before or after the lock release).  With the lock
+released last, at most one contender uses the directory at any time; in particular nobody acquires
+it while another DB is still flushing / syncing / closing its WAL, value log or LSM files. -/
+theorem C33_exclusive_during_close (c : DLCfg) (hc : c.Good) (s : St) (hr : Reachable (sys c) s)
+    (i j : Nat) (hi : Using s i) (hj : Using s j) : i = j := by
+  have hinv := Inv.reachable hc s hr
+  obtain ⟨ti, hti, hpi⟩ := hi
+  obtain ⟨tj, htj, hpj⟩ := hj
+  have key : ∀ k t, s.thr k = some t → usingPC t.pc = true → holding t.pc = true ∧ inLock t.pc = true := by
+    intro k t hk hu
+    cases hp : t.pc <;> simp_all [usingPC, holding, inLock]
+    exact (hinv.fin k t hk).2.2 _ hp
+  obtain ⟨a1, b1⟩ := key i ti hti hpi
+  obtain ⟨a2, b2⟩ := key j tj htj hpj
+  have n1 := hinv.heldName i ti hti a1
+  have n2 := hinv.heldName j tj htj a2
+  have l1 := hinv.thrLock i ti hti b1
+  have l2 := hinv.thrLock j tj htj b2
+  rw [n1] at n2
+  rw [Option.some.inj n2, l2] at l1
+  exact (Option.some.inj l1).symm
+
+/-- If DB.Close releases the lock before the WAL is closed (`closeReleasesLast = false`), a second
+contender acquires the directory while the first DB is still closing its storage. -/
+theorem C33_fails_close_releases_early (c : DLCfg) (hc : c = ⟨.removeUnlockClose, true, true, false⟩) :
+    ∃ s, Reachable (sys c) s ∧ Using s 0 ∧ Holds s 1 := by
+  subst hc
+  refine ⟨run (sys ⟨.removeUnlockClose, true, true, false⟩) initSt
+    [ .spawnDB 0, .run 0, .run 0, .run 0,     -- DB 0 is open
+      .run 0, .run 0, .run 0,                 -- Close: lsm, value log closed; next is the lock release
+      .run 0, .run 0, .run 0,                 -- dirLock.Release: unlink, unlock, close — the WAL is still open
+      .spawn 1, .run 1, .run 1, .run 1 ],     -- a second contender acquires the directory
+    run_reachable _ _ (.init rfl) _, ?_, ?_⟩
+  · exact ⟨⟨.closingAfter 1, 0, false, false, false, true⟩, by decide, rfl⟩
+  · exact ⟨⟨.held, 1, false, false, false, false⟩, by decide, rfl⟩
 
 /-- **Release called twice is harmless** (after a successful Release and after one that reported
 an error, e.g. a transient failure of the unlink): the DirLock has dropped its handle, the second
@@ -51,18 +89,18 @@ theorem C33_double_release (c : DLCfg) (hc : c.Good) (s : St) (hr : Reachable (s
 /-- If Release keeps its handle when it reports an error (`releaseClearsOnError = false`), a retried
 Release breaks exclusion: A's unlink fails once, A unlocks and closes; B acquires the leftover LOCK
 file; A retries Release and unlinks LOCK — now B's file; C creates a fresh LOCK and is admitted. -/
-theorem C33_fails_retry_keeps_handle (c : DLCfg) (hc : c = ⟨.removeUnlockClose, true, false⟩) :
+theorem C33_fails_retry_keeps_handle (c : DLCfg) (hc : c = ⟨.removeUnlockClose, true, false, true⟩) :
     ∃ s, Reachable (sys c) s ∧ Holds s 1 ∧ Holds s 2 := by
   subst hc
-  refine ⟨run (sys ⟨.removeUnlockClose, true, false⟩) initSt
+  refine ⟨run (sys ⟨.removeUnlockClose, true, false, true⟩) initSt
     [ .spawnF 0, .run 0, .run 0, .run 0,      -- A holds
       .run 0, .run 0, .run 0,                 -- A.Release: unlink fails, unlock, close; error, handle kept
       .spawn 1, .run 1, .run 1, .run 1,       -- B: open (the leftover file), flock, re-check ok: holds
       .run 0, .run 0, .run 0,                 -- A retries Release: unlinks LOCK (B's file); EBADF; EBADF
       .spawn 2, .run 2, .run 2, .run 2 ],     -- C: creates a new LOCK, flock, re-check ok: holds too
     run_reachable _ _ (.init rfl) _, ?_, ?_⟩
-  · exact ⟨⟨.held, 0, false, false, false⟩, by decide, rfl⟩
-  · exact ⟨⟨.held, 1, false, false, false⟩, by decide, rfl⟩
+  · exact ⟨⟨.held, 0, false, false, false, false⟩, by decide, rfl⟩
+  · exact ⟨⟨.held, 1, false, false, false, false⟩, by decide, rfl⟩
 
 /-! ### as-is: unlock before unlink, no re-check (finding `dirlock-unlock-before-unlink`) -/
 
@@ -75,25 +113,25 @@ def witness : List Act :=
     .run 0, .run 0,                       -- A.Release: close, remove(LOCK)
     .spawn 2, .run 2, .run 2, .run 2 ]    -- C: open creates inode 1, flock succeeds: holds too
 
-theorem C33_fails_asis (c : DLCfg) (hc : c = ⟨.unlockCloseRemove, false, true⟩) :
+theorem C33_fails_asis (c : DLCfg) (hc : c = ⟨.unlockCloseRemove, false, true, true⟩) :
     ∃ s, Reachable (sys c) s ∧ Holds s 1 ∧ Holds s 2 := by
   subst hc
-  refine ⟨run (sys ⟨.unlockCloseRemove, false, true⟩) initSt witness, run_reachable _ _ (.init rfl) _, ?_, ?_⟩
-  · exact ⟨⟨.held, 0, false, false, false⟩, by decide, rfl⟩
-  · exact ⟨⟨.held, 1, false, false, false⟩, by decide, rfl⟩
+  refine ⟨run (sys ⟨.unlockCloseRemove, false, true, true⟩) initSt witness, run_reachable _ _ (.init rfl) _, ?_, ?_⟩
+  · exact ⟨⟨.held, 0, false, false, false, false⟩, by decide, rfl⟩
+  · exact ⟨⟨.held, 1, false, false, false, false⟩, by decide, rfl⟩
 
 /-- Neither half of the repair suffices alone: with the unlink moved under the lock but no
 re-check, a contender that opened the old inode before the unlink still gets its flock. -/
-theorem C33_fails_without_recheck (c : DLCfg) (hc : c = ⟨.removeUnlockClose, false, true⟩) :
+theorem C33_fails_without_recheck (c : DLCfg) (hc : c = ⟨.removeUnlockClose, false, true, true⟩) :
     ∃ s, Reachable (sys c) s ∧ Holds s 1 ∧ Holds s 2 := by
   subst hc
-  refine ⟨run (sys ⟨.removeUnlockClose, false, true⟩) initSt
+  refine ⟨run (sys ⟨.removeUnlockClose, false, true, true⟩) initSt
     [ .spawn 0, .run 0, .run 0, .run 0, .spawn 1, .run 1,      -- A holds; B has opened inode 0
       .run 0, .run 0, .run 0,                                  -- A: remove, unlock, close
       .run 1, .run 1,                                          -- B: flock on the orphan inode: holds
       .spawn 2, .run 2, .run 2, .run 2 ], run_reachable _ _ (.init rfl) _, ?_, ?_⟩
-  · exact ⟨⟨.held, 0, false, false, false⟩, by decide, rfl⟩
-  · exact ⟨⟨.held, 1, false, false, false⟩, by decide, rfl⟩
+  · exact ⟨⟨.held, 0, false, false, false, false⟩, by decide, rfl⟩
+  · exact ⟨⟨.held, 1, false, false, false, false⟩, by decide, rfl⟩
 
 /-! ### non-vacuity -/
 
